@@ -173,6 +173,8 @@ Section Codec.
   Inductive bmode :=
   | BIdle                                  (** nothing in progress ([recved], [data], [item] empty) *)
   | BStream (total : N) (acc : list N)     (** [DataSource::Streamed]: chunks fed to the deserializer so far *)
+  | BDrain (acc : list N)                  (** [DataSource::Streamed] whose deserializer has ended (it got [acc]):
+                                               the feed loop skips to the end of the message *)
   | BPorts (b : list N) (expected : list N).  (** [item] is set, [port_deser.expected] non-empty *)
 
   Record bstate := mk_bstate {
@@ -251,6 +253,20 @@ Section Codec.
   Definition remove_ports (expected ps : list N) : list N :=
     filter (fun e => negb (existsb (N.eqb e) ps)) expected.
 
+  (** [recv_chunk] reported [Cancelled]: [data] is reset and [recv_any] runs, which first looks at the
+      restarted message *)
+  Definition on_cancel (s : bstate) (r' : rstate) : bstate * list bres :=
+    match restarted r' with
+    | Some (b, last) =>
+        let '(r2, o2) := handle_any (set_restarted r' None) (FData true last b) in
+        match o2 with
+        | None => (set_mode s BIdle r2, [])
+        | _ => on_any s r2 o2
+        end
+    | None =>
+        if finished r' then (set_mode s BIdle r', [REnd]) else (set_mode s BIdle r', [])
+    end.
+
   (** what the receiver obtains by the time the given frame has been taken from the port queue *)
   Definition bfeed (s : bstate) (f : frame) : bstate * list bres :=
     if finished (br s) then (s, [])
@@ -282,20 +298,23 @@ Section Codec.
             | RChunks _ completed => stream_q s r' total acc [c] completed
             | _ => (set_mode s BIdle r', [])
             end
-        | Some OCancelled =>
-            (* [data] is reset and [recv_any] runs, which first looks at the restarted message *)
-            match restarted r' with
-            | Some (b, last) =>
-                let '(r2, o2) := handle_any (set_restarted r' None) (FData true last b) in
-                match o2 with
-                | None => (set_mode s BIdle r2, [])
-                | _ => on_any s r2 o2
-                end
-            | None =>
-                if finished r' then (set_mode s BIdle r', [REnd]) else (set_mode s BIdle r', [])
-            end
+        | Some OCancelled => on_cancel s r'
         | Some OEnd => (set_mode s BIdle r', [REnd])
         | _ => (set_mode s (BStream total acc) r', [])
+        end
+    | BDrain acc =>
+        (* [tx.reserve()] failed: the chunks are taken and dropped until the message ends; only then
+           does the deserializer's result count *)
+        let '(r', o) := handle_chunk (br s) f in
+        match o with
+        | Some (OChunk _) =>
+            match rcving r' with
+            | RChunks _ true => decode_done s (set_rcving r' RNothing) acc
+            | _ => (set_mode s (BDrain acc) r', [])
+            end
+        | Some OCancelled => on_cancel s r'
+        | Some OEnd => (set_mode s BIdle r', [REnd])
+        | _ => (set_mode s (BDrain acc) r', [])
         end
     end.
 
@@ -308,16 +327,16 @@ Section Codec.
         (s2, o1 ++ o2)
     end.
 
-  (** A [recv] future that was dropped while pending and is polled again: in [DataSource::Streamed] the
-      feed loop starts with [tx.reserve()], which fails once the deserializer thread has returned
-      (it returns as soon as it has read a complete value); its result is then taken. *)
+  (** The feed loop notices that the deserializer thread has ended (it returns as soon as it has read a
+      complete value, or failed): [tx.reserve()] fails.  This happens when a [recv] future that was
+      dropped while pending is polled again, or within one call when the thread is quick.  The loop then
+      skips to the end of the message ([BDrain]); the result is taken only if the message is completed. *)
   Definition reenter (s : bstate) : bstate * list bres :=
     match bm s with
     | BStream total acc =>
         match decode acc with
-        | DOk => have_item s (br s) acc
-        | DErr => (set_mode s BIdle (br s), [RErrDeser])
         | DIncomplete => (s, [])
+        | _ => (set_mode s (BDrain acc) (br s), [])
         end
     | _ => (s, [])
     end.
@@ -402,13 +421,6 @@ Section Codec.
         let '(bd', _, atts, res) := base_send c bd bu it in
         (it, atts, res) :: send_all c bd' r
     end.
-
-  (** the known class (finding F15): an unfinished message that carries a complete encoding *)
-  Definition cut_complete (atts : list catt) : bool :=
-    existsb (fun a => match a with
-                      | ADataCut p => match decode p with DIncomplete => false | _ => true end
-                      | _ => false
-                      end) atts.
 
   Definition is_ok (r : bres) : bool := match r with ROk _ => true | _ => false end.
   Definition oks (l : list bres) : list (list N) := flat_map (fun r => match r with ROk b => [b] | _ => [] end) l.
